@@ -721,6 +721,140 @@ def rule_scc8(prog):
     return r
 
 
+def rule_scc9(prog):
+    """the successor scan of the post-order step looks at *every* successor
+    and the closed set only grows.
+
+    witness for an early exit under `lowlink[v] < disc[v]` ("v is not a
+    root anyway"): V presented as [1, 0, 2], edges 1->0, 0->2, 2->0, 2->1 --
+    node 2 scans 0 first, leaves with lowlink = disc[0] and never sees the
+    edge to 1; 0 is then taken for a root and {0, 2} is split from {1}."""
+    r = RuleResult('R-SCC-9', 'the successor scan of the post-order step '
+                   'visits every successor (no early exit) and the closed '
+                   'set is never shrunk')
+    f = prog.func('graph.compute_SCCs')
+    block = post_order_block(f)
+    scans = []
+    for st in block:
+        for n in ast.walk(st):
+            if isinstance(n, ast.For) and any(
+                    isinstance(m, ast.Subscript) and
+                    isinstance(m.ctx, ast.Store) for m in ast.walk(n)):
+                scans.append(n)
+    if not scans:
+        raise Inconclusive('R-SCC-9', 'no successor scan with a table '
+                           'update in the post-order step', f.where())
+    pending = None
+    closed = set()
+    for loop in scans:
+        lv = set(m.id for m in ast.walk(loop.target)
+                 if isinstance(m, ast.Name))
+        for m in ast.walk(loop):
+            if isinstance(m, ast.Compare) and len(m.ops) == 1 and \
+                    isinstance(m.ops[0], (ast.In, ast.NotIn)) and \
+                    isinstance(m.left, ast.Name) and m.left.id in lv and \
+                    isinstance(m.comparators[0], ast.Name):
+                closed.add(m.comparators[0].id)
+        # exits of this loop (not of a loop nested in it)
+        exits = []
+
+        def visit(node, guards):
+            for ch in ast.iter_child_nodes(node):
+                if isinstance(ch, (ast.For, ast.While, ast.FunctionDef,
+                                   ast.Lambda)):
+                    continue
+                if isinstance(ch, ast.Break):
+                    exits.append((ch, list(guards)))
+                elif isinstance(ch, ast.If):
+                    for b in ch.body:
+                        if isinstance(b, ast.Break):
+                            exits.append((b, guards + [ch.test]))
+                        else:
+                            visit(b, guards + [ch.test])
+                    for b in ch.orelse:
+                        if isinstance(b, ast.Break):
+                            exits.append((b, guards + [ch.test]))
+                        else:
+                            visit(b, guards + [ch.test])
+                else:
+                    visit(ch, guards)
+        for b in loop.body:
+            if isinstance(b, ast.Break):
+                exits.append((b, []))
+            else:
+                visit(b, [])
+        r.inst(scan='for %s in %s' % (ast.unparse(loop.target),
+                                      ast.unparse(loop.iter)),
+               line=loop.lineno, early_exits=len(exits))
+        if not exits:
+            r.ok()
+        for (b, guards) in exits:
+            g = guards[-1] if guards else None
+
+            def about_v_only(t):
+                if not (isinstance(t, ast.Compare) and len(t.ops) == 1):
+                    return False
+                sides = [t.left, t.comparators[0]]
+                return all(isinstance(x, ast.Subscript) and
+                           isinstance(x.value, ast.Name) and
+                           isinstance(x.slice, ast.Name) and
+                           x.slice.id not in lv for x in sides)
+            if g is None or about_v_only(g):
+                r.fail(Finding(
+                    PROP, 'R-SCC-9', '%s:%d' % (f.module.relpath, b.lineno),
+                    f.short(), 'scan-exit:%s' % (
+                        ast.unparse(g) if g is not None else 'always'),
+                    'the successor scan of the post-order step is left '
+                    'early (%s): the remaining successors are never '
+                    'examined, but the low-link of the node is the minimum '
+                    'over all of them and is handed on to its ancestors '
+                    '(V = [1, 0, 2], 1->0, 0->2, 2->0, 2->1: the component '
+                    '{0, 1, 2} is split)' % (
+                        'if ' + ast.unparse(g) if g is not None
+                        else 'unconditionally')),
+                    witness=('V=[1,0,2]', 'E=1->0,0->2,2->0,2->1'))
+            else:
+                pending = Inconclusive(
+                    'R-SCC-9', 'early exit of the successor scan under `%s`'
+                    % ast.unparse(g), '%s:%d' % (f.module.relpath, b.lineno))
+    # the closed set
+    shr = ('clear', 'discard', 'remove', 'pop', 'difference_update',
+           'intersection_update', 'symmetric_difference_update')
+    for c in sorted(closed):
+        nassign = 0
+        for n in ast.walk(f.node):
+            hit = None
+            if isinstance(n, ast.Call) and \
+                    isinstance(n.func, ast.Attribute) and \
+                    n.func.attr in shr and \
+                    isinstance(n.func.value, ast.Name) and \
+                    n.func.value.id == c:
+                hit = ast.unparse(n)
+            if isinstance(n, ast.AugAssign) and \
+                    isinstance(n.target, ast.Name) and n.target.id == c and \
+                    isinstance(n.op, (ast.Sub, ast.BitAnd, ast.BitXor)):
+                hit = ast.unparse(n)
+            if isinstance(n, ast.Assign) and any(
+                    isinstance(t, ast.Name) and t.id == c
+                    for t in n.targets):
+                nassign += 1
+                if nassign > 1:
+                    hit = ast.unparse(n)
+            if hit:
+                pending = Inconclusive(
+                    'R-SCC-9', 'the closed set `%s` is shrunk (`%s`): the '
+                    'guard `w not in %s` of R-SCC-1 presumes that a closed '
+                    'node stays closed' % (c, hit, c),
+                    '%s:%d' % (f.module.relpath, n.lineno))
+        r.inst(closed_set=c, shrunk=False if pending is None else None)
+    if pending is not None:
+        pending.partial = [r]
+        raise pending
+    if closed:
+        r.ok()
+    return r
+
+
 def rule_scc5(prog):
     r = RuleResult('R-SCC-5', 'compute_SCCs does not modify its argument')
     f = prog.func('graph.compute_SCCs')
@@ -741,7 +875,7 @@ def run(prog, tier, seed):
     T = Attempts()
     results = T.results(T(rule_scc, prog), T(rule_scc6, prog),
                         T(rule_scc5, prog), T(rule_scc7, prog),
-                        T(rule_scc8, prog))
+                        T(rule_scc8, prog), T(rule_scc9, prog))
     # "for every directed graph G": compute_SCCs reads G through nodes() /
     # next(); a DiGraph whose mutators leave an edge to an unregistered node
     # has nodes that are in no component
